@@ -241,38 +241,47 @@ ASTNode *PrimaryExpressionParser::parsePrimary() {
         bool looks_like_type =
             !token.value.empty() && std::isupper(token.value[0]);
         if (looks_like_type && parser_->check(TokenType::TOK_LT)) {
+            // Look ahead: `Name<type arguments>::` is a generic enum type.
+            // Anything else - N < 3, A < B, (c), Max < limit ? x : y - is the
+            // comparison operator applied to a variable whose name happens to
+            // start with an upper-case letter: the scan is undone.
+            RecursiveLexer saved_lexer = parser_->lexer_;
+            Token saved_current = parser_->current_token_;
+            bool saved_has_split = parser_->has_split_gt_token_;
+
             // 型引数を含む完全な型名を構築
-            enum_type_name += "<";
+            std::string scanned_type_name = enum_type_name + "<";
             parser_->advance(); // consume '<'
 
             // 型引数をパース（カンマ区切りで複数対応）
             int depth = 1; // ネストした < > のカウント
+            bool only_type_tokens = true;
             while (depth > 0 && !parser_->isAtEnd()) {
                 if (parser_->check(TokenType::TOK_LT)) {
-                    enum_type_name += "<";
+                    scanned_type_name += "<";
                     depth++;
                     parser_->advance();
                 } else if (parser_->check(TokenType::TOK_GT)) {
-                    enum_type_name += ">";
+                    scanned_type_name += ">";
                     depth--;
                     parser_->advance();
                 } else if (parser_->check(TokenType::TOK_COMMA)) {
-                    enum_type_name += ",";
+                    scanned_type_name += ",";
                     parser_->advance();
                 } else if (parser_->check(TokenType::TOK_IDENTIFIER)) {
-                    enum_type_name += parser_->current_token_.value;
+                    scanned_type_name += parser_->current_token_.value;
                     parser_->advance();
                 } else if (parser_->check(TokenType::TOK_MUL)) {
-                    enum_type_name += "*";
+                    scanned_type_name += "*";
                     parser_->advance();
                 } else if (parser_->check(TokenType::TOK_LBRACKET)) {
-                    enum_type_name += "[";
+                    scanned_type_name += "[";
                     parser_->advance();
                 } else if (parser_->check(TokenType::TOK_RBRACKET)) {
-                    enum_type_name += "]";
+                    scanned_type_name += "]";
                     parser_->advance();
                 } else if (parser_->check(TokenType::TOK_NUMBER)) {
-                    enum_type_name += parser_->current_token_.value;
+                    scanned_type_name += parser_->current_token_.value;
                     parser_->advance();
                     // 型キーワードも処理
                 } else if (parser_->check(TokenType::TOK_INT) ||
@@ -285,18 +294,21 @@ ASTNode *PrimaryExpressionParser::parsePrimary() {
                            parser_->check(TokenType::TOK_STRING_TYPE) ||
                            parser_->check(TokenType::TOK_CHAR_TYPE) ||
                            parser_->check(TokenType::TOK_VOID)) {
-                    enum_type_name += parser_->current_token_.value;
+                    scanned_type_name += parser_->current_token_.value;
                     parser_->advance();
                 } else {
-                    parser_->error(
-                        "Unexpected token in generic type arguments");
-                    return nullptr;
+                    only_type_tokens = false;
+                    break;
                 }
             }
 
-            if (depth != 0) {
-                parser_->error("Unmatched '<' in generic type");
-                return nullptr;
+            if (only_type_tokens && depth == 0 &&
+                parser_->check(TokenType::TOK_SCOPE)) {
+                enum_type_name = scanned_type_name;
+            } else {
+                parser_->lexer_ = saved_lexer;
+                parser_->current_token_ = saved_current;
+                parser_->has_split_gt_token_ = saved_has_split;
             }
         }
 
